@@ -74,20 +74,19 @@ def decOf : GoVal → Bytes
 theorem stdOut_int (n : Int) : stdOut.chunks (.int .int n) = .ok [intDec n] := by
   simp [stdOut, stdChunks, GoVal.toLiquid, writeChunksL, writeObjectL, sprint, Res.bind]
 
-/-- printing a variable bound to an integer is one write of its numeral -/
+/-- printing a variable bound to an integer is one verbatim write of its numeral -/
 theorem writesAt_obj_int (c : RCtx) (hO : ∀ n, c.O.chunks (.int .int n) = .ok [intDec n]) (l : Nat) (i : Bytes) (env : Env) (k : Int)
     (hk : env.get i = .int .int k) : WritesAt c (.obj l (.var i)) env (intDec k) := by
-  intro tw
+  intro B
   have hev : evaluate c.P env (.var i) = .ok (.int .int k) := by
     simp only [evaluate, eval, hk]; rfl
-  have : renderNode c (.obj l (.var i)) ⟨env, tw⟩ =
-      wrapFailAt c.cfg.path ⟨l, true⟩ (do writeM (intDec k); pure Status.done) ⟨env, tw⟩ := by
-    simp only [renderNode, wrapFailAt, M.mapFail, bind, M.bind, M.getEnv, Prog.bind, hev, M.ofRes, pure, M.pure]
-    split
-    · next h => simp [GoVal.isNil] at h
-    simp only [hO, M.bind, M.pure, Prog.bind, writeAllM, bind, pure, Prog.bind_assoc]
-  rw [this]
-  exact write_done_run _ _ _ ⟨env, tw⟩
+  refine ⟨B ++ intDec k, [], ?_, by simp⟩
+  simp only [renderNode, wrapFailAt, M.mapFail, bind, M.bind, M.getEnv, Prog.bind, hev, M.ofRes, pure, M.pure]
+  split
+  · next h => simp [GoVal.isNil] at h
+  simp only [hO, M.bind, M.pure, Prog.bind, writeAllM, bind, pure, Prog.bind_assoc]
+  rw [Prog.runPure_mapFail]
+  simp only [Prog.runPure_bind, writeVerbatim_runPure, Prog.runPure, List.append_nil, M.pure]
 
 /-- the fold of the iterations of a loop whose body is `{{ i }}` over integer items -/
 theorem fold_print_ints (c : RCtx) (hO : ∀ n, c.O.chunks (.int .int n) = .ok [intDec n]) (l : Nat) (i : Bytes)
